@@ -1,17 +1,21 @@
 #!/bin/bash
-# builds the instrumented (overlay) plain and race binaries of a SCHED check from /repo's working tree
+# builds the instrumented (overlay) plain and race binaries of a SCHED check from the repository's working tree
 set -u
-cd "$(dirname "$0")"
-id=$1
+cd "$(dirname "$0")"; HERE=$(pwd)
+id=$1; REPO=${2:-/repo}
 export GOFLAGS=-mod=mod GOPROXY=off GOSUMDB=off GOTOOLCHAIN=local
-export GOCACHE=${GOCACHE:-/verif/.work/gocache}
+export GOCACHE=${GOCACHE:-$HERE/.work/gocache}
+TAG=${VERIF_TAG:-}
+MODFLAG=${VERIF_MODFLAG:-}
 mkdir -p .work/bin
-ov=/verif/.work/overlay-$id
+ov=$HERE/.work/overlay-$id$TAG
 rm -rf "$ov"; mkdir -p "$ov"
-go build -o .work/bin/vinstr ./cmd/vinstr 2> .work/build-vinstr.log || { cat .work/build-vinstr.log; exit 2; }
-.work/bin/vinstr -repo /repo -out "$ov" sync2 chans || exit 2
-go build -overlay "$ov/overlay.json" -o .work/bin/$id ./checks/$id 2> .work/build-$id.log || { cat .work/build-$id.log; exit 2; }
+if [ ! -x .work/bin/vinstr ] || [ cmd/vinstr/main.go -nt .work/bin/vinstr ]; then
+  go build -o .work/bin/vinstr.$$ ./cmd/vinstr 2> .work/build-vinstr.log && mv .work/bin/vinstr.$$ .work/bin/vinstr || { cat .work/build-vinstr.log; exit 2; }
+fi
+.work/bin/vinstr -repo "$REPO" -out "$ov" sync2 chans || exit 2
+go build $MODFLAG -overlay "$ov/overlay.json" -o .work/bin/$id$TAG ./checks/$id 2> .work/build-$id$TAG.log || { cat .work/build-$id$TAG.log; exit 2; }
 if [ "${VERIF_NO_RACE:-}" = "" ]; then
-  go build -race -overlay "$ov/overlay.json" -o .work/bin/$id-race ./checks/$id 2> .work/build-$id-race.log || { cat .work/build-$id-race.log; exit 2; }
+  go build $MODFLAG -race -overlay "$ov/overlay.json" -o .work/bin/$id$TAG-race ./checks/$id 2> .work/build-$id$TAG-race.log || { cat .work/build-$id$TAG-race.log; exit 2; }
 fi
 exit 0
